@@ -73,7 +73,7 @@ def run(res):
     for r, t, s, d in common.parallel(dec, jobs, workers=2):
         desc = "%s | decode threads=%d seed=%d" % (r["desc"], t, s)
         res.case(desc)
-        key = {"threads": t if t <= 2 else 3, "regime": "normal"}
+        key = {"threads_ge_2": int(t >= 2), "regime": "normal", "bits": r["case"]["bits"]}
         if any(e["ev"] == "Timeout" for e in d["events"]):
             ph = [e.get("phase") for e in d["events"] if e["ev"] == "Timeout"]
             res.violation("multi-threaded decode hangs (%s): %s" % (ph, desc), d["log"][-800:], key=dict(key, kind="hang"))
